@@ -447,7 +447,8 @@ func checkC11(r *Result) []Violation {
 		outstanding := map[uint16]bool{} // broker -> client, from the client's point of view
 		own := map[uint16]byte{}         // client -> broker QoS>0 publishes not yet completed
 		ownMax := 0
-		inboundQos2Done := 0 // PUBCOMP written by the broker: inbound QoS 2 exchanges completed on this connection
+		resent := map[uint16]bool{} // packet ids the broker sent with DUP on this connection (resends after a reconnect)
+		inboundQos2Done := 0        // PUBCOMP written by the broker: inbound QoS 2 exchanges completed on this connection
 		clientPubrecs := 0   // PUBREC sent by the client: outbound QoS 2 exchanges past their first half
 		for _, it := range items {
 			p := it.p
@@ -457,11 +458,20 @@ func checkC11(r *Result) []Violation {
 				case refcodec.PUBLISH:
 					if p.Qos > 0 {
 						outstanding[p.PacketID] = true
+						if p.Dup {
+							resent[p.PacketID] = true
+						}
 						if len(outstanding) > rm {
 							// which known mechanism, if any, can account for the excess?
 							explained := "none"
-							if p.Dup {
-								explained = "resend" // in-flight messages are resent on reconnect regardless of the quota
+							anyResent := false
+							for pid := range outstanding {
+								if resent[pid] {
+									anyResent = true
+								}
+							}
+							if p.Dup || anyResent {
+								explained = "resend" // in-flight messages are resent on reconnect regardless of, and without consuming, the quota
 							} else if inboundQos2Done >= len(outstanding)-rm {
 								explained = "inbound-qos2" // each completed inbound QoS 2 exchange also raises the send quota
 							}
